@@ -91,6 +91,17 @@ func p2as3(v []ref.F, i int) ref.P3 { return ref.P3{X: float64(v[2*i]), Y: float
 func co2(p ref.P3) geom.Coord { return geom.Coord{p.X, p.Y} }
 func co3(p ref.P3) geom.Coord { return geom.Coord{p.X, p.Y, p.Z} }
 
+// negZeros returns the coordinate with every zero ordinate replaced by negative zero.
+func negZeros(c geom.Coord) geom.Coord {
+	out := append(geom.Coord{}, c...)
+	for i, v := range out {
+		if v == 0 {
+			out[i] = math.Copysign(0, -1)
+		}
+	}
+	return out
+}
+
 func c15Exec(c *engine.Ctx, cs c15Case) {
 	c.Count("evaluations", 1)
 	v := cs.V
@@ -133,6 +144,11 @@ func c15Exec(c *engine.Ctx, cs c15Case) {
 			if ok {
 				ok = check("DistanceFromPointToLine(coordinates with extra ordinates)", xy.DistanceFromPointToLine(wide2(p, 1, -7), wide2(a, 2, 100), wide2(b, 2, 200)), exact2) &&
 					check("DistanceFromPointToLine(coordinates of different lengths)", xy.DistanceFromPointToLine(wide2(p, 0, 0), wide2(a, 1, 5), wide2(b, 3, 5)), exact2)
+			}
+			// -0 is the grid value 0: the same call with the zeros of one end negative
+			if ok {
+				ok = check("DistanceFromPointToLine(zeros of the far end negative)", xy.DistanceFromPointToLine(co2(p), co2(a), negZeros(co2(b))), exact2) &&
+					check("DistanceFromPointToLine(zeros of the point and the near end negative)", xy.DistanceFromPointToLine(negZeros(co2(p)), negZeros(co2(a)), co2(b)), exact2)
 			}
 			if ok && a != b {
 				// perpendicular distance to the infinite line
@@ -188,13 +204,17 @@ func c15Exec(c *engine.Ctx, cs c15Case) {
 			exact2 = ref.PointSeg2(p, a, b)
 			ok = check("xyz.DistancePointToLine", xyz.DistancePointToLine(co3(p), co3(a), co3(b)), exact2) &&
 				check("xyz.DistancePointToLine(reversed)", xyz.DistancePointToLine(co3(p), co3(b), co3(a)), exact2) &&
-				check("xyz.Distance", xyz.Distance(co3(p), co3(a)), ref.PointSeg2(p, a, a))
+				check("xyz.Distance", xyz.Distance(co3(p), co3(a)), ref.PointSeg2(p, a, a)) &&
+				check("xyz.DistancePointToLine(zeros of the far end negative)", xyz.DistancePointToLine(co3(p), co3(a), negZeros(co3(b))), exact2) &&
+				check("xyz.DistancePointToLine(zeros of the near end and of the point negative)", xyz.DistancePointToLine(negZeros(co3(p)), negZeros(co3(a)), co3(b)), exact2)
 		case "seg-seg3":
 			a, b, cc, d := p3(v, 0), p3(v, 1), p3(v, 2), p3(v, 3)
 			exact2 = ref.SegSeg2(a, b, cc, d)
 			ok = check("xyz.DistanceLineToLine", xyz.DistanceLineToLine(co3(a), co3(b), co3(cc), co3(d)), exact2) &&
 				check("xyz.DistanceLineToLine(swapped)", xyz.DistanceLineToLine(co3(cc), co3(d), co3(a), co3(b)), exact2) &&
-				check("xyz.DistanceLineToLine(reversed)", xyz.DistanceLineToLine(co3(b), co3(a), co3(d), co3(cc)), exact2)
+				check("xyz.DistanceLineToLine(reversed)", xyz.DistanceLineToLine(co3(b), co3(a), co3(d), co3(cc)), exact2) &&
+				check("xyz.DistanceLineToLine(zeros of both far ends negative)", xyz.DistanceLineToLine(co3(a), negZeros(co3(b)), co3(cc), negZeros(co3(d))), exact2) &&
+				check("xyz.DistanceLineToLine(zeros of both near ends negative)", xyz.DistanceLineToLine(negZeros(co3(a)), co3(b), negZeros(co3(cc)), co3(d)), exact2)
 		case "pt-pt3":
 			// Z = NaN on either side: the distance is the XY distance
 			a, b := p3(v, 0), p3(v, 1)
